@@ -87,7 +87,7 @@ type weights map[string]int
 var profiles = map[string]weights{
 	"c13": {"pub": 22, "sub": 8, "rdy": 12, "fin": 14, "req": 8, "touch": 3, "scan": 8, "cls": 2, "disc": 3, "pausec": 3, "pauset": 2, "emptyc": 4, "emptyt": 1, "createc": 3, "foreign": 3},
 	"c02": {"pub": 18, "sub": 9, "rdy": 12, "fin": 12, "req": 10, "touch": 6, "scan": 12, "cls": 1, "disc": 3, "pausec": 1, "createc": 2, "foreign": 12},
-	"c03": {"pub": 18, "sub": 9, "rdy": 20, "fin": 10, "req": 6, "touch": 1, "scan": 6, "cls": 5, "disc": 2, "pausec": 9, "pauset": 6, "createc": 2, "foreign": 1, "badstate": 2, "restart": 2},
+	"c03": {"pub": 18, "sub": 9, "rdy": 20, "fin": 10, "req": 6, "touch": 1, "scan": 6, "cls": 5, "disc": 2, "pausec": 9, "pauset": 6, "createc": 2, "foreign": 4, "badstate": 2, "restart": 2},
 	"c01": {"pub": 24, "sub": 8, "rdy": 10, "fin": 6, "req": 10, "touch": 2, "scan": 10, "cls": 2, "disc": 8, "pausec": 3, "pauset": 3, "createc": 6, "foreign": 1, "restart": 2},
 	"c08": {"pub": 18, "sub": 9, "rdy": 9, "fin": 6, "req": 6, "touch": 1, "scan": 6, "cls": 1, "disc": 5, "pausec": 2, "pauset": 2, "emptyc": 9, "emptyt": 3, "deletec": 6, "deletet": 3, "createc": 5, "createt": 2, "eph": 8, "foreign": 7},
 	"c04": {"pub": 26, "sub": 8, "rdy": 10, "fin": 8, "req": 16, "touch": 3, "scan": 20, "cls": 1, "disc": 3, "pausec": 2, "createc": 7, "foreign": 1},
@@ -193,6 +193,28 @@ func (cr *caseRun) step(w weights) {
 			return
 		}
 		sc := subs[cr.r.Intn(len(subs))]
+		// half of the time: a message that a COMPETING consumer of the same channel holds right now
+		// (e.g. one that timed out on this connection and was redelivered to the other)
+		if cr.r.Bool() && sc.sub != nil {
+			for _, other := range subs {
+				if other == sc || other.sub == nil || *other.sub != *sc.sub || len(other.held) == 0 {
+					continue
+				}
+				tags := make([]int, 0, len(other.held))
+				for tg := range other.held {
+					tags = append(tags, tg)
+				}
+				sort.Ints(tags)
+				tg := tags[cr.r.Intn(len(tags))]
+				if id, ok := sc.held[tg]; ok && id == other.held[tg] {
+					continue
+				}
+				verb := []string{"FIN", "REQ", "TOUCH"}[cr.r.Intn(3)]
+				cr.tag("foreign-held-by-competitor-" + verb)
+				cr.answer(sc, verb, tg, other.held[tg], 0)
+				return
+			}
+		}
 		kn := cr.known[cr.r.Intn(len(cr.known))]
 		tg := 0
 		fmt.Sscanf(kn[0], "%d", &tg)
